@@ -97,7 +97,10 @@ class Samples(object):
                             and s.rv.ops[0].place is not None and s.rv.ops[0].place.is_local() and s.rv.ops[0].place.local in flags:
                         flags.add(s.place.local)
                         changed = True
-        self.flags = sorted(flags)
+        # plus enum-tagged locals (`Err(..)` / `None` verdicts of merged helpers travelling through `?`)
+        self.flags = sorted(flags) + [f for f in scenario_flags(body) if f not in flags]
+        if len(self.flags) > 28:
+            self.flags = self.flags[:28]
         self.graphs = {}
         self.reach = {}
         self.atoms_used = set()
